@@ -101,10 +101,13 @@ def main(argv=None):
 
     jobs = args.jobs or getattr(mod, 'JOBS', {}).get(args.tier, 1)
     jobs = max(1, min(jobs, os.cpu_count() or 1))
-    ctx = core.Ctx(prop, args.tier, seed)
-    if jobs == 1:
-        run_cases(ctx, mod, (0, 1))
-    else:
+
+    def one_pass(pass_seed):
+        """All cases of the tier under one seed (in shards when jobs > 1), merged into one Ctx."""
+        c = core.Ctx(prop, args.tier, pass_seed)
+        if jobs == 1:
+            run_cases(c, mod, (0, 1))
+            return c
         timeout = getattr(mod, 'SHARD_TIMEOUT_S', {}).get(args.tier, 900 if args.tier == 'quick' else 4 * 3600)
         tmp = tempfile.mkdtemp(prefix=f'gmv_{prop}_')
         try:
@@ -114,7 +117,8 @@ def main(argv=None):
                 cmd = [sys.executable, '-W', 'ignore', '-m', 'gmv.run', prop, args.tier,
                        '--shard', f'{i}/{jobs}', '--partial', part]
                 procs.append((i, part, subprocess.Popen(
-                    cmd, stdout=subprocess.DEVNULL, stderr=subprocess.PIPE, cwd=core.VERIF)))
+                    cmd, stdout=subprocess.DEVNULL, stderr=subprocess.PIPE, cwd=core.VERIF,
+                    env=dict(os.environ, VERIF_SEED=str(pass_seed)))))
             t_end = time.time() + timeout
             for i, part, p in procs:
                 try:
@@ -122,16 +126,34 @@ def main(argv=None):
                 except subprocess.TimeoutExpired:
                     p.kill()
                     p.communicate()
-                    ctx.inconclusive_because(f'shard {i}/{jobs} hit the {timeout}s watchdog')
+                    c.inconclusive_because(f'shard {i}/{jobs} hit the {timeout}s watchdog')
                     continue
                 if p.returncode != 0 or not os.path.exists(part):
                     tail = (err or b'').decode(errors='replace')[-600:]
-                    ctx.inconclusive_because(f'shard {i}/{jobs} died rc={p.returncode}: {tail}')
+                    c.inconclusive_because(f'shard {i}/{jobs} died rc={p.returncode}: {tail}')
                     continue
                 with open(part) as fh:
-                    ctx.merge(json.load(fh))
+                    c.merge(json.load(fh))
         finally:
             shutil.rmtree(tmp, ignore_errors=True)
+        return c
+
+    def unreached(c):
+        required = getattr(mod, 'REQUIRED_CLASSES', {})
+        required = required.get(args.tier, required.get('all', ())) if isinstance(required, dict) else required
+        return [n for n in required if c.classes.get(n, 0) == 0]
+
+    ctx = one_pass(seed)
+    # Input classes are drawn at random; with an unlucky seed a required one may not come up.  That says nothing about the
+    # code under test, so the workload is extended (same cases, another seed, at most twice) before the run is called
+    # inconclusive.  Never done when something was refuted or a shard failed.
+    extra = 0
+    while extra < 2 and not ctx.violations and not ctx.inconclusive and unreached(ctx):
+        extra += 1
+        seed2 = seed + 1000003 * extra
+        ctx.note(f'input classes {unreached(ctx)} were not reached with seed {seed}: supplementary pass with seed {seed2}')
+        more = one_pass(seed2)
+        ctx.merge(more.dump())
     if hasattr(mod, 'finalize'):
         mod.finalize(ctx)
     return core.finish(ctx, mod, write_evidence=not args.no_evidence)
